@@ -25,6 +25,13 @@ def mc(name, module, cfg, **kw):
     return d
 
 
+def proof(name, module, steps, **kw):
+    """Apalache runs on spec/apalache/<module>.tla; steps = [(init, inv, length, next)]"""
+    d = dict(kind="proof", name=name, module=module, steps=steps)
+    d.update(kw)
+    return d
+
+
 def gen(name, fn, **kw):
     d = dict(kind="gen", name=name, fn=fn)
     d.update(kw)
@@ -470,7 +477,9 @@ PROPS["C18"] = dict(
 
 PROPS["C20"] = dict(
     level="model_checking", variant="asan", exhaustive=False,
-    stages=lambda tier, seed: [mc("cells", "MC_C20", "MC_C20_%s.cfg" % tier, dopts=dict(runner="tools"), target_ops=12)],
+    stages=lambda tier, seed: [proof("inductive", "ToolsInd", [("Init", "IndInv", 0, "Next"), ("IndInit", "IndInv", 1, "Next"),
+                                                                 ("IndInit", "ExitOK", 0, "Next")]),
+                               mc("cells", "MC_C20", "MC_C20_%s.cfg" % tier, dopts=dict(runner="tools"), target_ops=12)],
     rule="On the specification (Tools.tla via MC_C20): the jwt-verify machine over token lists good^g bad^b in three "
          "orders for g in {0,1,3} and b in {0,1,2,255,256,257,512} (quick) / every b in 0..520 (thorough): exit status "
          "zero iff every token verified, failure counter exact. Against the tools built from the working tree: "
